@@ -211,6 +211,27 @@ _r9 = {
 }
 for _k, _v in _r9.items():
     _borrow[_k] = (_borrow.get(_k, "") + " " + _v).strip()
+# rules added after the tenth seeding round (DESIGN.md 10.15)
+_r10 = {
+ "C01": "Also evaluates the findBestArchive obligation of C04.R4.",
+ "C03": "Also: the partition's clock is the caller's or the package clock, never a time from the batch; evaluates the findBestArchive obligation of C04.R4.",
+ "C04": "Also: findBestArchive makes one comparison, of an archive's retention with now.Sub(t), walking the list in order.",
+ "C05": "Also: no function of the module removes, renames, truncates or rewrites a file by path.",
+ "C06": "Also evaluates C04.R1.",
+ "C07": "Also: Header.TakeFrom validates the decoded method and factor after storing them; evaluates the ParseArchiveInfo:rejects obligation of C19.R3.",
+ "C09": "Also evaluates the glob…Remote obligations of C12.R6.",
+ "C10": "Also: every file read below sumWhisperFileLocal is an element of the glob result.",
+ "C11": "Also evaluates C08.R6.",
+ "C13": "Also evaluates the retry-buffer obligation of C14.R5.",
+ "C14": "Also evaluates the Header.TakeFrom must-validate obligations of C07.R1.",
+ "C15": "Also: below the remote readers every loop is driven by a length, a range or a Scanner; evaluates the findBestArchive obligation of C04.R4.",
+ "C16": "Also evaluates the writes-every-point obligation of C08.R9.",
+ "C18": "Also: no function of cmd that takes an io.Writer prints to standard output; evaluates the zero-series obligation of C14.R6.",
+ "C19": "Also evaluates the flag-value obligations of C20.R6.",
+ "C20": "Also: the generated lists reach the writer unchanged; a flag's Set stores the parsed value itself, not appended to the old one.",
+}
+for _k, _v in _r10.items():
+    _borrow[_k] = (_borrow.get(_k, "") + " " + _v).strip()
 for _k, _v in _borrow.items():
     _extra[_k] = (_extra.get(_k, "") + " " + _v).strip()
 _re = "Every property also evaluates <id>.RE: no failure is turned into success in the functions reachable from its entry points."
